@@ -436,3 +436,60 @@ def filter_spatial_case(in_place):
 
 REG.add(filter_spatial_case(True))
 REG.add(filter_spatial_case(False))
+
+
+# ---------------------------------------------------------------------------------------------------
+# C14: from_dict restores every stored attribute - also falsy ones (catalog id 0, empty name) - and hands the stored event
+# list to the constructor unchanged.  The constructor is observed through a recording stub (its own behaviour: bounded).
+# ---------------------------------------------------------------------------------------------------
+def _directed_roundtrips():
+    """concrete catalogs through the dict / JSON forms (conventions of rt/oracles_io.catalog_roundtrip): catalog id 0 and other
+    ids, empty and non-empty names, empty catalogs"""
+    evs = [['a1', 1262304000000, 34.25, -118.5, 10.0, 4.5], ['b,2', -1000, -45.0, 170.0, 0.0, 5.25], ['c 3', 1262304000123, 0.0, 0.0, 33.3, 6.0]]
+    fam = []
+    for mode in ('dict', 'json'):
+        for cid in (0, 7, None):
+            for name in ('cat', ''):
+                for e in (evs, evs[:1], []):
+                    fam.append(('catalog_roundtrip', dict(events=e, mode=mode, catalog_id=cid, name=name)))
+    return fam
+
+
+@contract
+class CatalogFromDict:
+    directed = staticmethod(_directed_roundtrips)
+    qualname = CATCLS + '.from_dict'
+    case = 'dictionary with all attributes present, no region; constructor observed through a recording stub'
+    properties = ('C14',)
+
+    def params(c):
+        from pyvc.core import Lam, Obj
+        from pyvc.models_time import mk_dt
+        seen = {}
+        cid = c.int('catalog_id')
+        t_acc = mk_dt(c.int('date_accessed_us'), 'UTC')
+        events = c.obj(None, name='stored event list')
+        adict = {'catalog': events, 'catalog_id': cid, 'name': c.obj(None, name='stored name'), 'format': 'csep-csv', 'filename': None,
+                 'compute_stats': False, 'filters': [], 'metadata': {}, 'date_accessed': t_acc, 'region': None}
+
+        def make(data=None, **kw):
+            seen['data'], seen['kw'] = data, kw
+            o = c.obj(None, filename='default.csv', catalog_id=None, format='default', name='default', region=None,
+                      compute_stats=True, filters=['default'], metadata={'default': 1}, date_accessed=None, _catalog=data)
+            o.abstract = False
+            seen['obj'] = o
+            return o
+        return dict(cls=Lam(make, 'cls'), adict=adict, _seen=seen, _events=events, _cid=cid, _t=t_acc)
+
+    def ensures(c, r, cls, adict, _seen, _events, _cid, _t):
+        yield 'the constructor receives the stored event list', z3.BoolVal(_seen.get('data') is _events)
+        yield 'returns the constructed catalog', z3.BoolVal(r is _seen.get('obj'))
+        f = r.fields
+        yield 'catalog id restored for EVERY integer (0 included)', to_z3(f.get('catalog_id')) == _cid if f.get('catalog_id') is not None \
+            else z3.BoolVal(False)
+        yield 'name restored', z3.BoolVal(f.get('name') is adict['name'])
+        yield 'format / filename / flags restored (falsy values too)', z3.BoolVal(
+            f.get('format') == 'csep-csv' and f.get('filename') is None and f.get('compute_stats') is False
+            and f.get('filters') == [] and f.get('metadata') == {})
+        yield 'access time restored', z3.BoolVal(f.get('date_accessed') is _t)
+        yield 'no region in the dictionary: none invented', z3.BoolVal(f.get('region') is None)
